@@ -119,16 +119,16 @@ Qed.
 Lemma outcome_of_some s d o : dout s d = Some o -> outcome_of s d = o.
 Proof. unfold outcome_of. intros ->. reflexivity. Qed.
 
-Lemma finok_finalize s s' t i l r d :
+Lemma finok_finalize s s' t i l r d p :
   InvA s -> InvB s -> InvC s -> InvE s -> StepF s s' ->
   thr s t = i :: l -> opt_eqb (cbk_of (recs s) i) d = true ->
   r < nrec s -> jdel (recs s r) = Some d -> ds s d = Finished ->
   nrec s' = nrec s -> ndel s' = ndel s -> recs s' = recs s -> dfor s' = dfor s -> datt s' = datt s ->
   ds s' = ds s -> dout s' = dout s -> dcb s' = dcb s ->
-  thr s' = upd (thr s) t (norm false (finalize_prog s r d ++ l)) ->
+  thr s' = upd (thr s) t (norm false p) -> cbc (recs s) d p <= cbc (recs s) d l ->
   FinOK s' t (jf (recs s r)) (outcome_of s d).
 Proof.
-  intros IA IB IC IE (NJ & OS & Hl & Hp) Et Hh Hr Hd Hfin En Ed Er Ef Ea Es Eo Ec Ht.
+  intros IA IB IC IE (NJ & OS & Hl & Hp) Et Hh Hr Hd Hfin En Ed Er Ef Ea Es Eo Ec Ht Hc.
   destruct (a_rec _ IA r d Hr Hd) as (A1 & A2 & A3 & A4).
   destruct (cbc_head_one s t _ l d IB Et Hh) as [Q1 Q2].
   assert (Pd : pend s d) by (split; [auto|right; exists t; auto]).
@@ -136,9 +136,9 @@ Proof.
   assert (NP : ~ pend s' d).
   { intros (_ & [P|(t' & P)]).
     - unfold started in P. rewrite Ec, Es in P. assert (G := b_started _ IB t d Q1). unfold started in G. congruence.
-    - assert (Z := retired_after s s' t (finalize_prog s r d ++ l) d IA IB). rewrite Er in Z, P.
+    - assert (Z := retired_after s s' t p d IA IB). rewrite Er in Z, P.
       specialize (Z (fun _ _ => eq_refl) Ht Q1). rewrite Z in P; [lia|].
-      unfold finalize_prog. simpl. rewrite !cbc_cons_none by reflexivity. exact Q2. }
+      lia. }
   exists d. split.
   - rewrite <- A2. unfold Fact. rewrite Ed, Ef, Ea, Es, Eo. repeat split; auto.
     intros d' H' E'. apply (c_l2d _ IC d d' Pd H' E').
@@ -209,6 +209,13 @@ Proof.
   - apply gnj_some in Heqo. destruct Heqo as [G1 G2].
     simpl. intros j o [Hi|[Hi|[Hi|[Hi|[]]]]]; try discriminate. inversion Hi; subst j o. right.
     eapply (finok_discard s _ (rj_id r) n _ IA IC IE SF G1 G2 Heqo0); try reflexivity.
+  - (* EAcqM at IPolSR: stop_retry seen late, finalise *)
+    assert (W := a_wf _ IA t). rewrite Heql in W. destruct (W _ (or_introl eq_refl)) as [W1 _].
+    assert (Fi := e_prog _ IE t). rewrite Heql in Fi. specialize (Fi _ (or_introl eq_refl) n Heqo0).
+    simpl. intros j1 o1 [Hi|[Hi|[Hi|Hi]]]; try discriminate; [|left; rewrite Heql; right; auto].
+    inversion Hi; subst j1 o1. right.
+    eapply (finok_finalize s _ t _ l r n _ IA IB IC IE SF Heql); try reflexivity; auto.
+    all: simpl; try (rewrite Heqo0; apply Nat.eqb_refl); try (rewrite !cbc_cons_none by reflexivity; lia).
   - intros j o Hin. apply in_app_iff in Hin. destruct Hin as [Hin|Hin].
     + exfalso. clear - Hin. unfold cbs_prog in Hin. induction (rcbs s j0) as [|c l0 IH]; simpl in Hin; auto.
       apply in_app_iff in Hin. destruct Hin as [Hin|Hin]; auto. destruct c; simpl in Hin; intuition discriminate.
@@ -222,28 +229,28 @@ Proof.
     assert (Fi := done_notcancelled _ St Heqb1).
     simpl. intros j1 o1 [Hi|[Hi|[Hi|[Hi|Hi]]]]; try discriminate; [|left; rewrite Heql; right; auto].
     inversion Hi; subst j1 o1. right.
-    eapply (finok_finalize s _ t _ l r d0 IA IB IC IE SF Heql Hh W1 W2 Fi); reflexivity.
+    eapply (finok_finalize s _ t _ l r d0 _ IA IB IC IE SF Heql Hh W1 W2 Fi); try reflexivity.
   - assert (W := a_wf _ IA t). rewrite Heql in W. destruct (W _ (or_introl eq_refl)) as [W1 W2]. simpl in W2.
     destruct (jdel (recs s r)) as [d|] eqn:Ed; [clear W2|tauto]. simpl.
     assert (Fi := e_prog _ IE t). rewrite Heql in Fi. specialize (Fi _ (or_introl eq_refl) d Ed).
     simpl. intros j1 o1 [Hi|[Hi|[Hi|[Hi|Hi]]]]; try discriminate; [|left; rewrite Heql; right; auto].
     inversion Hi; subst j1 o1. right.
-    eapply (finok_finalize s _ t _ l r d IA IB IC IE SF Heql); try reflexivity; auto.
-    simpl. rewrite Ed. apply Nat.eqb_refl.
+    eapply (finok_finalize s _ t _ l r d _ IA IB IC IE SF Heql); try reflexivity; auto.
+    all: simpl; try (rewrite Ed; apply Nat.eqb_refl); try (rewrite !cbc_cons_none by reflexivity; lia).
   - assert (W := a_wf _ IA t). rewrite Heql in W. destruct (W _ (or_introl eq_refl)) as [W1 W2]. simpl in W2.
     destruct (jdel (recs s r)) as [d|] eqn:Ed; [clear W2|tauto]. simpl.
     assert (Fi := e_prog _ IE t). rewrite Heql in Fi. specialize (Fi _ (or_introl eq_refl) d Ed).
     simpl. intros j1 o1 [Hi|[Hi|[Hi|[Hi|Hi]]]]; try discriminate; [|left; rewrite Heql; right; auto].
     inversion Hi; subst j1 o1. right.
-    eapply (finok_finalize s _ t _ l r d IA IB IC IE SF Heql); try reflexivity; auto.
-    simpl. rewrite Ed. apply Nat.eqb_refl.
+    eapply (finok_finalize s _ t _ l r d _ IA IB IC IE SF Heql); try reflexivity; auto.
+    all: simpl; try (rewrite Ed; apply Nat.eqb_refl); try (rewrite !cbc_cons_none by reflexivity; lia).
   - assert (W := a_wf _ IA t). rewrite Heql in W. destruct (W _ (or_introl eq_refl)) as [W1 W2]. simpl in W2.
     destruct (jdel (recs s r)) as [d|] eqn:Ed; [clear W2|tauto]. simpl.
     assert (Fi := e_prog _ IE t). rewrite Heql in Fi. specialize (Fi _ (or_introl eq_refl) d Ed).
     simpl. intros j1 o1 [Hi|[Hi|[Hi|[Hi|Hi]]]]; try discriminate; [|left; rewrite Heql; right; auto].
     inversion Hi; subst j1 o1. right.
-    eapply (finok_finalize s _ t _ l r d IA IB IC IE SF Heql); try reflexivity; auto.
-    simpl. rewrite Ed. apply Nat.eqb_refl.
+    eapply (finok_finalize s _ t _ l r d _ IA IB IC IE SF Heql); try reflexivity; auto.
+    all: simpl; try (rewrite Ed; apply Nat.eqb_refl); try (rewrite !cbc_cons_none by reflexivity; lia).
 Qed.
 
 Lemma invF_init : InvF init.
